@@ -267,6 +267,63 @@ def h_kernel(is_initiator, proto):
     return ['kernel', 'ok']
 
 
+WIRE_NETS = (('10.1.0.0/16', '10.2.3.0/24'), ('192.0.2.1/32', '10.0.0.0/8'), ('0.0.0.0/0', '198.51.100.64/26'), ('2001:db8:1::/48', '2001:db8:2:3::/64'),
+             ('::/0', '2001:db8::1/128'), ('10.9.0.0/16', '10.9.0.0/16'))
+WIRE_PORTS = ((0, 0), (0, 443), (8080, 0), (1024, 2048))
+
+
+def h_kernel_wire(is_initiator):
+    """the BYTES of the two XFRM_MSG_NEWSA requests that the real Xfrm.create_child_sa / create_sa emit for a CHILD_SA (decoded with the kernel ABI
+    table): each selector denotes exactly the tracked networks and ports of its direction - address, prefix length, port and port mask of the
+    source taken from the source side, of the destination from the destination side (case split over WIRE_NETS x WIRE_PORTS)"""
+    from symx import core
+    from . import world, klayout
+    eng = core.engine()
+    m, ik = MODS['message'], MODS['ikesa']
+    TS, T, P = m.TrafficSelector, m.Transform, m.Proposal
+    pick = lambda name, opts: opts[eng.concretize(c, 0, len(opts) - 1) if not isinstance((c := eng.sym_int(name, 0, len(opts) - 1)), int) else c]
+    my_net, peer_net = (ipaddress.ip_network(x) for x in pick('networks', WIRE_NETS))
+    my_port, peer_port = pick('ports', WIRE_PORTS)
+    mk = lambda net, port: TS(TS.Type.TS_IPV4_ADDR_RANGE if net.version == 4 else TS.Type.TS_IPV6_ADDR_RANGE, TS.IpProtocol.UDP, port if port else 0, port if port else 65535,
+                              net[0], net[-1])
+    mine, peer = mk(my_net, my_port), mk(peer_net, peer_port)
+    trs = [T(T.Type.INTEG, T.IntegId.AUTH_HMAC_SHA2_256_128), T(T.Type.ESN, T.EsnId.NO_ESN), T(T.Type.ENCR, T.EncrId.ENCR_AES_CBC, 256)]
+    prop = P(1, P.Protocol.ESP, b'OUT!', trs)
+    child = ik.ChildSa(inbound_spi=b'IN!!', outbound_spi=b'OUT!', original_proposal=prop, proposal=prop, tsi=mine, tsr=peer, mode=ik.xfrm.Mode.TUNNEL, lifetime=-1)
+    fake = types.SimpleNamespace(my_addr=world.IP1, peer_addr=world.IP2)
+    KR = namedtuple('KR', ['sk_ai', 'sk_ar', 'sk_ei', 'sk_er'])
+    world.SWITCH.install(MODS['xfrm'], wire=True)
+    world.wire_env(MODS)
+    E = world.Endpoint('X', None)
+    try:
+        with E:
+            ik.xfrm.Xfrm.create_child_sa(fake, child, KR(b'ai' * 16, b'ar' * 16, b'ei' * 16, b'er' * 16), is_initiator)
+    finally:
+        world.SWITCH.install(MODS['xfrm'], wire=False)
+    sas = [x for x in E.kernel.log if x['op'] == 'NEWSA']
+    if len(sas) != 2:
+        return {'class': ['kernel_wire'], 'violation': f'{len(sas)} NEWSA requests'}
+    Tb = klayout.table()
+    K = Tb['const']
+    hl = Tb['nlmsghdr']['__size']
+    for sa in sas:
+        outbound = bytes(sa['spi']) == b'OUT!'
+        s_net, d_net, s_port, d_port = (my_net, peer_net, my_port, peer_port) if outbound else (peer_net, my_net, peer_port, my_port)
+        v = klayout.View(sa['raw']).at(hl).sub('xfrm_usersa_info', 'sel')
+        n = 4 if s_net.version == 4 else 16
+        got = dict(family=v.u('xfrm_selector', 'family'), saddr=bytes(v.raw('xfrm_selector', 'saddr'))[:n], daddr=bytes(v.raw('xfrm_selector', 'daddr'))[:n],
+                   plen_s=v.u('xfrm_selector', 'prefixlen_s'), plen_d=v.u('xfrm_selector', 'prefixlen_d'), sport=v.u('xfrm_selector', 'sport', big=True),
+                   dport=v.u('xfrm_selector', 'dport', big=True), smask=v.u('xfrm_selector', 'sport_mask'), dmask=v.u('xfrm_selector', 'dport_mask'),
+                   proto=v.u('xfrm_selector', 'proto'))
+        want = dict(family=K['AF_INET'] if s_net.version == 4 else K['AF_INET6'], saddr=s_net[0].packed, daddr=d_net[0].packed, plen_s=s_net.prefixlen, plen_d=d_net.prefixlen,
+                    sport=s_port, dport=d_port, smask=0xFFFF if s_port else 0, dmask=0xFFFF if d_port else 0, proto=17)
+        bad = {k: (got[k], want[k]) for k in want if got[k] != want[k]}
+        if bad:
+            return {'class': ['kernel_wire'], 'violation': f'{"outbound" if outbound else "inbound"} kernel SA for {s_net}:{s_port} -> {d_net}:{d_port}: the selector bytes '
+                                                           f'differ from the tracked networks/ports in {sorted(bad)} (got/wanted {bad})'}
+    return ['kernel_wire', 'ok']
+
+
 NET_BASES = {4: ('0.0.0.0', '10.0.0.0', '128.0.0.0', '255.255.255.255', '0.0.0.1'),
              6: ('::', '2001:db8::', '8000::', 'ffff:ffff:ffff:ffff:ffff:ffff:ffff:ffff', '::1', '::1:0:0', '0:0:1::')}
 
@@ -330,6 +387,7 @@ def h_responder_mode(sit, conf_mode):
 
 def build_instances(tier):
     inst = [Instance(f'network <-> selector IPv{v}', h_network, (v,), engine_kw={'max_ticks': 10 ** 7}) for v in (4, 6)]
+    inst += [Instance(f'kernel selector bytes initiator={i}', h_kernel_wire, (i,), native=common.native_of(h_kernel_wire), engine_kw={'max_ticks': 10 ** 7}) for i in (True, False)]
     for sit in ('new', 'rekey'):
         for cm in ('transport', 'tunnel'):
             inst.append(Instance(f'responder mode {sit} policy={cm}', h_responder_mode, (sit, cm), native=common.native_of(h_responder_mode),
@@ -366,7 +424,7 @@ def replay_file(path):
     """native replay of a selector counterexample: recompute is_subset and brute-force the packet semantics on the
     boundary packets of both selectors"""
     global MODS
-    if json.load(open(path)).get('instance', '').startswith(('initiator response', 'kernel SAs', 'network <->', 'responder mode')):
+    if json.load(open(path)).get('instance', '').startswith(('initiator response', 'kernel SAs', 'network <->', 'responder mode', 'kernel selector bytes')):
         return common.generic_replay_file(path, lambda: build_instances('thorough') + build_instances('quick'), _load_world_native)
     MODS = common.load_repo(shim=False)
     TS = MODS['message'].TrafficSelector
